@@ -40,6 +40,15 @@ type Script struct {
 	NoToolsCap         bool   `json:"no_tools_cap"`
 	Arg                string `json:"arg"`
 	ExtraTools         int    `json:"extra_tools"`
+	// Before: sessions established with the SAME Server over other links before the judged one
+	// (what was negotiated there must not influence the judged negotiation).
+	Before []Prior `json:"before,omitempty"`
+}
+
+type Prior struct {
+	Link      wire.Config `json:"link"`
+	Requested string      `json:"requested"`
+	Close     bool        `json:"close"` // the earlier session is closed before the judged Connect
 }
 
 var requestedAll = []string{"", "2026-07-28", "2025-11-25", "2025-06-18", "2025-03-26", "2024-11-05", "2024-01-01", "2099-01-01", "abc", "2026-07-27"}
@@ -66,6 +75,18 @@ func allLinks() []wire.Config {
 	return out
 }
 
+// priorLinks: the links earlier sessions of the same Server may use (no custom session-id option,
+// which is a property of the Server and belongs to the judged link).
+func priorLinks() []wire.Config {
+	var out []wire.Config
+	for _, l := range allLinks() {
+		if !l.EmptySessionID {
+			out = append(out, l)
+		}
+	}
+	return out
+}
+
 func genScript(rt *rapid.T) Script {
 	links := allLinks()
 	s := Script{
@@ -79,6 +100,13 @@ func genScript(rt *rapid.T) Script {
 	}
 	if s.Link.Kind == wire.Stateful || s.Link.Kind == wire.Stateless {
 		s.Link.NoStandalone = rapid.Bool().Draw(rt, "nosse")
+	}
+	for i, n := 0, rapid.SampledFrom([]int{0, 0, 1, 1, 2}).Draw(rt, "before"); i < n; i++ {
+		s.Before = append(s.Before, Prior{
+			Link:      rapid.SampledFrom(priorLinks()).Draw(rt, "plink"),
+			Requested: rapid.SampledFrom(requestedAll).Draw(rt, "prequested"),
+			Close:     rapid.Bool().Draw(rt, "pclose"),
+		})
 	}
 	return s
 }
@@ -124,6 +152,45 @@ func runInBubble(s Script) (res vt.Result) {
 			return &mcp.CallToolResult{}, nil, nil
 		})
 	}
+	for _, p := range s.Before {
+		pl, err := wire.New(server, p.Link)
+		if err != nil {
+			res.Failf("harness: building prior link: %v", err)
+			return
+		}
+		pc := mcp.NewClient(&mcp.Implementation{Name: "earlier", Version: "1"}, nil)
+		pch := make(chan *mcp.ClientSession, 1)
+		go func() {
+			var o *mcp.ClientSessionOptions
+			if p.Requested != "" {
+				o = &mcp.ClientSessionOptions{ProtocolVersion: p.Requested}
+			}
+			pcs, _ := pc.Connect(context.Background(), pl.ClientTransport, o)
+			pch <- pcs
+		}()
+		var pcs *mcp.ClientSession
+		for i, got := 0, false; i < 120 && !got; i++ {
+			synctest.Wait()
+			select {
+			case pcs = <-pch:
+				got = true
+			default:
+				time.Sleep(time.Second)
+			}
+		}
+		if pcs != nil {
+			if p.Close {
+				pcs.Close()
+				synctest.Wait()
+			} else {
+				defer pcs.Close()
+			}
+		}
+		res.Class("after_earlier_session_on_same_server")
+	}
+	mu.Lock()
+	clear(seen)
+	mu.Unlock()
 	link, err := wire.New(server, s.Link)
 	if err != nil {
 		res.Failf("harness: building link: %v", err)
@@ -170,6 +237,9 @@ func runInBubble(s Script) (res vt.Result) {
 	modernAttempt := requested >= modern
 	transportModern := s.Link.TransportSupports(modern)
 	res.Desc = fmt.Sprintf("%s|%s", s.Requested, s.Link)
+	for _, p := range s.Before {
+		res.Desc += fmt.Sprintf("|after %s %s", p.Requested, p.Link)
+	}
 	defer func() {
 		for ss := range server.Sessions() {
 			go ss.Close()
@@ -315,12 +385,16 @@ func TestC07_Sample(t *testing.T) { theT = t; prop.Check(t) }
 func TestC07_Matrix(t *testing.T) {
 	theT = t
 	cells := 0
-	for _, r := range requestedAll {
-		for _, l := range allLinks() {
-			if !prop.RunOne(t, Script{Requested: r, Link: l, Arg: "x"}) {
-				return
+	// third dimension: no earlier session on the Server, one over a modern-capable transport, one over a legacy-only one
+	priors := [][]Prior{nil, {{Link: wire.Config{Kind: wire.InMem}}}, {{Link: wire.Config{Kind: wire.Stateful}, Close: true}}}
+	for _, before := range priors {
+		for _, r := range requestedAll {
+			for _, l := range allLinks() {
+				if !prop.RunOne(t, Script{Requested: r, Link: l, Arg: "x", Before: before}) {
+					return
+				}
+				cells++
 			}
-			cells++
 		}
 	}
 	vt.Counter("exhaustive_cells", 0) // cells are recorded as ordinary evaluations by RunOne
